@@ -17,7 +17,8 @@ DEFAULTS = dict(entry='jaccard_join', filter=None, measure=None, nl=2, nr=2, k=2
                 thresholds=[0.5], comp_ops=['>='], allow_empty=[True], allow_missing=[False],
                 out_sim_score=[True], n_jobs=[1], out_attrs=[(None, None)],
                 col_orders=[None], index_labels=[None], props=None, validate_every=0,
-                l_out_prefix='l_', r_out_prefix='r_', kind='join', cpu_count=None)
+                l_out_prefix='l_', r_out_prefix='r_', kind='join', cpu_count=None,
+                extra=('x', 'y'))
 
 _BIND = None
 _COUNTER = [0]
@@ -48,10 +49,10 @@ def make(cfg_in):
         bag = cfg['bag'] and not tok_mode
         Lt = scenario.build_table(c, 'L', cfg['nl'], cfg['k'], cfg['kmin'], cfg['missing'], bag,
                                   cfg['nonempty'], col_order[0] if col_order else None,
-                                  index=idx[0] if idx else None)
+                                  index=idx[0] if idx else None, extra=cfg['extra'])
         Rt = scenario.build_table(c, 'R', cfg['nr'], cfg['k'], cfg['kmin'], cfg['missing'], bag,
                                   cfg['nonempty'], col_order[1] if col_order else None,
-                                  index=idx[1] if idx else None)
+                                  index=idx[1] if idx else None, extra=cfg['extra'])
         lo, ro = _opt(c, 'outattrs', cfg['out_attrs'])
         s = dict(entry=entry, filter=cfg['filter'], measure=measure, kind=cfg['kind'],
                  threshold=_opt(c, 'thr', cfg['thresholds']),
